@@ -7,7 +7,7 @@ from .. import grouplab as G
 ID = "C03"
 LEVEL = "exploration"
 RULE = ("same-size families: every multiset of n files (n<=3 quick, <=5 thorough) over the variants {base, flipped at 0, "
-        "at L/2, at L-1, at 4096} for L in {1,4096,4097,65536,131073}, laid out over 1-3 directories and 1-2 roots (one layout puts the second root on a loop-mounted ext4 image, i.e. a second device with its own hashing pool), with "
+        "at L/2, at L-1, at 4096} for L in {1,4096,4097,65536,131073}, laid out over 1-3 directories and 1-2 roots (one layout puts the second root on a loop-mounted ext4 image, i.e. a second device with its own hashing pool; one puts the files on two fresh tmpfs instances below one root, where the k-th files have equal inode numbers on different file systems), with "
         "optional hard links and repeated / overlapping roots; x replication filter {default, --rf-over 0/2/3, "
         "--rf-under 2/3, --unique} x prefix/suffix sizes, disk kind (thorough: hash, cache, -t 1, transform keep). "
         "Oracle: independent partition of the scanned files by bytes + replica count + strict filter; the reported set of "
@@ -38,6 +38,9 @@ LAYOUTS = [
     ("file_roots", [("r1", "d1"), ("r1", "d2")], None),   # every file given explicitly
     # r2 is a loop-mounted ext4 image: a second device in fclones' own device table, hashed by its own thread pool
     ("two_devices", [("r1", "d1"), ("r2", "d2")], ["r1", "r2"]),
+    # m1 and m2 are two fresh tmpfs instances below one root: the k-th file of each gets the same inode number, and
+    # fclones' device table does not list tmpfs, so both belong to one "device" (one hashing pool, one id space?)
+    ("two_tmpfs", [("r1", "m1"), ("r1", "m2")], ["r1"]),
 ]
 
 
@@ -55,7 +58,7 @@ def build_tree(L, combo, layout, hard):
         tree.append({"p": p, "k": "file", "c": v})
         paths.append(p)
     if hard:
-        root, d = places[0] if name == "two_devices" else places[-1]   # a hard link cannot cross devices
+        root, d = places[0] if name in ("two_devices", "two_tmpfs") else places[-1]   # a hard link cannot cross devices
         tree.append({"p": "%s/%s/hl0" % (root, d), "k": "hard", "to": paths[0]})
         paths.append("%s/%s/hl0" % (root, d))
     if roots is None:
@@ -125,6 +128,26 @@ def evaluate(case):
             with C.LoopMount(os.path.join(sc.tree, "r2")):
                 obs = G.run_group(case, scratch=sc)
                 obs["files"] = G.scan_reference(sc.tree, case)
+    elif meta["layout"] == "two_tmpfs":
+        import os
+        import subprocess
+        from . import c09
+        if not c09.can_mount():
+            return {"violations": [], "nontrivial": None, "outcome": "skipped_no_mount"}
+        with C.Scratch() as sc:
+            mounts = []
+            try:
+                for m in ("m1", "m2"):
+                    d = os.path.join(sc.tree, "r1", m)
+                    os.makedirs(d)
+                    if subprocess.run(["mount", "-t", "tmpfs", "none", d]).returncode != 0:
+                        return {"violations": [], "nontrivial": None, "outcome": "skipped_no_mount"}
+                    mounts.append(d)
+                obs = G.run_group(case, scratch=sc)
+                obs["files"] = G.scan_reference(sc.tree, case)
+            finally:
+                for d in mounts:
+                    subprocess.run(["umount", d])
     else:
         obs = G.run_group(case)
     return judge(case, obs)
@@ -187,8 +210,13 @@ def judge(case, obs):
     nontrivial = [meta["L"], meta["combo"], meta["layout"], meta["hard"], meta["filter"], meta["extra"], meta["disk"],
                   meta["tr"]] if exp_rep else None
     nsplit = len(set(e["paths"] for e in exp))
+    inos = {}
+    for f in ref["files"].values():
+        inos.setdefault(f["ino"], set()).add(f["dev"])
+    same_ino = any(len(d) > 1 for d in inos.values())
     return {"violations": viol, "nontrivial": nontrivial, "outcome": outcome,
-            "counters": {"expected_groups": len(exp_rep), "multi_class_cases": 1 if nsplit > 1 else 0},
+            "counters": {"expected_groups": len(exp_rep), "multi_class_cases": 1 if nsplit > 1 else 0,
+                         "equal_inode_numbers_on_two_file_systems": 1 if same_ino else 0},
             "sample": {"roots": case["roots"], "args": case["args"], "meta": meta,
                        "expected": [sorted(x) for x in exp_rep][:3]}}
 
@@ -200,4 +228,7 @@ def finish(stats, tier):
         out.append("the reference never expected a group")
     if not c.get("multi_class_cases"):
         out.append("no tree with more than one content class")
+    from . import c09
+    if c09.can_mount() and not c.get("equal_inode_numbers_on_two_file_systems"):
+        out.append("no tree with equal inode numbers on two file systems")
     return out
